@@ -173,6 +173,9 @@ fn corpus() -> Vec<&'static str> {
         // D21 without an explicit disjunction: two answer orders over 12 fresh processes (6/6); the labelling of v0 and v1 is
         // the choice point (found by the thorough tier of C16 as a model/implementation sequence difference)
         "prog 4 2 0 - infd v3 V 5 1 -4 4 -1 -1 infd v2 I -4 4 infd v0 I -3 1 distinctfd cons v2 cons v0 cons v1 cons i2 nil infd v1 I -1 4 plusfd v0 v1 v2 distinctfd cons v3 cons i-1 nil",
+        // one unification binding two domain variables: the result must not depend on which binding the hash order puts first (C09-k)
+        "prog 3 3 0 - infd v0 I 0 5 infd v1 V 3 1 2 3 infd v2 V 3 2 3 4 eq cons v1 cons v2 nil cons v0 cons v0 nil",
+        "prog 3 1 0 - infd v1 V 3 1 2 3 infd v2 V 3 1 2 3 eq cons v1 cons v2 nil cons i5 cons i2 nil eq v0 cons v1 cons v2 nil",
         // labelling through a compound query term, domains only: the order is the field order (C09-e)
         "prog 3 1 0 - eq v0 comp0 cons v1 cons v2 nil infd v1 I 0 1 infd v2 I 0 1",
         "prog 4 1 0 - eq v0 comp1 cons v1 cons v2 cons v3 nil infd v1 I 0 2 infd v2 I 5 6 infd v3 I -1 0",
